@@ -50,6 +50,18 @@ def d1(cx: Cx, ob: Ob) -> None:
         if cs != ("param", "case_sensitive"):
             ob.violate(fn.qualname, where(fn, ev.line), f"chain does not pass its own case_sensitive to add_record ({show(cs) if cs else 'default'})", detail="case-forward")
         loops = ctx.loops
+        if len(loops) == 1:
+            it = loops[0].b
+            # for record in itertools.chain.from_iterable(c.records for c in converters): same order as the nested loops
+            if op(it) == "call" and op(it[1]) == "ext" and it[1][1] == "itertools.chain.from_iterable" and len(it[2]) == 1 and op(it[2][0]) == "comp" and len(it[2][0][3]) == 1:
+                comp = it[2][0]
+                ctgt, csrc, cifs = comp[3][0]
+                if comp[2] == ("attr", ctgt, "records") and not cifs:
+                    from ..summ import Ev as _Ev
+
+                    outer = _Ev("loop", loops[0].line, ctgt, csrc)
+                    inner = _Ev("loop", loops[0].line, loops[0].a, ("attr", ctgt, "records"))
+                    loops = (outer, inner)
         if len(loops) != 2:
             ob.undecide("chain's fold is not a two-level loop over converters and records")
             continue
@@ -100,47 +112,84 @@ def d3(cx: Cx, ob: Ob) -> None:
         recs = ctor[0][2][0] if ctor[0][2] else dict(ctor[0][3]).get("records")
         line = ctx.path.out[2]
         ob.site(f"{where(fn, line)} {fn.qualname}", f"records = {show(recs)[:80]}")
-        if op(recs) != "comp" or len(recs[3]) != 1:
-            ob.undecide("record selection of get_subconverter is not a single comprehension")
+        from ..rules import _container_fields, _unset
+
+        conds: list = []
+        if op(recs) == "comp" and len(recs[3]) == 1:
+            tgt, it, ifs = recs[3][0]
+            prov.add_binding(tgt, it)
+            conds = [(c, True) for c in ifs]
+            elt = recs[2]
+        elif op(recs) == "new" and recs[1] == "list":
+            apps = [(ev, c2) for ev, c2 in s.mutations_of(recs) if ev.kind == "expr" and callee_name(ev.a) == "append" and c2.loops]
+            if len({ev.line for ev, _ in apps}) != 1:
+                ob.undecide("record selection of get_subconverter is not a single comprehension or append loop")
+                continue
+            ev0, c0 = apps[0]
+            lp = c0.loops[-1]
+            tgt, it, elt = lp.a, lp.b, ev0.a[2][0]
+            conds = [(g.a, g.b) for g in c0.guards if g.kind == "guard" and g.line >= lp.line]
+        else:
+            ob.undecide("record selection of get_subconverter is not a single comprehension or append loop")
             continue
         found = True
-        tgt, it, ifs = recs[3][0]
-        prov.add_binding(tgt, it)
         if it != ("attr", me, "records"):
-            ob.violate(fn.qualname, where(fn, line), f"get_subconverter selects from `{show(it)[:40]}`, not self.records", detail="source")
-        if not ifs:
+            # selection driven by the requested prefixes: sound only if a record named twice is kept once
+            looks_up = any(op(x) == "call" and callee_name(x) == "get_record" for x in subterms(elt)) or any(op(x) == "call" and callee_name(x) == "get_record" for c, _ in conds for x in subterms(c))
+            dedupe = any(op(x) == "cmp" and x[1] == "in" and pol is False for c, pol in conds for x in subterms(c)) or any(callee_name(x) in ("set", "fromkeys", "values") for x in subterms(recs) if op(x) == "call")
+            if looks_up and not dedupe:
+                ob.violate(
+                    fn.qualname,
+                    where(fn, line),
+                    f"get_subconverter collects one record per requested prefix (iterating `{show(it)[:40]}`): a record requested by two of its names is collected twice and the strict constructor rejects the result",
+                    witness="get_subconverter(['CHEBI', 'chebi']) with chebi a synonym of CHEBI raises DuplicateURIPrefixes",
+                    detail="duplicate-records",
+                )
+            else:
+                ob.undecide(f"get_subconverter selects from `{show(it)[:40]}`, not self.records")
+            continue
+        if not conds:
             ob.violate(fn.qualname, where(fn, line), "get_subconverter does not filter records", detail="no-filter")
             continue
-        # which fields of the record are tested for membership in the requested set
         fields = set()
-        wanted = None
-        for cnd in ifs:
+        for cnd, pol in conds:
+            recognised = False
             for x in subterms(cnd):
-                if op(x) == "cmp" and x[1] == "in":
+                if op(x) == "cmp" and x[1] == "in" and pol is True:
                     for r, f in prov.fields(x[2]):
                         if r == tgt:
                             fields.add(f)
-                            wanted = x[3]
-                if op(x) == "cmp" and x[1] == "not in":
+                            recognised = True
+                if op(x) == "cmp" and x[1] == "in" and pol is False and any(y == tgt for y in subterms(x)):
                     ob.undecide("negative membership test in get_subconverter")
-                if op(x) == "call" and op(x[1]) == "attr" and x[1][2] in ("intersection", "isdisjoint") or (op(x) == "bin" and x[1] == "&"):
-                    from ..rules import _container_fields, _unset
-
-                    ops_ = [x[2], x[3]] if op(x) == "bin" else [x[1][1], x[2][0]]
-                    for o_ in ops_:
+                inter_ops = None
+                if op(x) == "call" and op(x[1]) == "attr" and x[1][2] == "intersection" and len(x[2]) == 1 and pol is True:
+                    inter_ops = [x[1][1], x[2][0]]
+                if op(x) == "call" and op(x[1]) == "attr" and x[1][2] == "isdisjoint" and len(x[2]) == 1 and pol is False:
+                    inter_ops = [x[1][1], x[2][0]]
+                if op(x) == "bin" and x[1] == "&" and pol is True:
+                    inter_ops = [x[2], x[3]]
+                if inter_ops:
+                    for o_ in inter_ops:
                         for r, f in _container_fields(prov, _unset(o_)):
                             if r == tgt:
                                 fields.add(f)
-            if any(op(x) == "call" and callee_name(x) == "all" for x in subterms(cnd)):
+                                recognised = True
+                if op(x) == "call" and op(x[1]) == "attr" and x[1][2] == "isdisjoint" and pol is True and any(y == tgt for y in subterms(x)):
+                    ob.violate(fn.qualname, where(fn, line), "get_subconverter keeps the records whose names are DISJOINT from the requested prefixes", detail="inverted")
+                    recognised = True
+            if any(op(x) == "call" and callee_name(x) == "all" for x in subterms(cnd)) and pol is True:
                 ob.violate(fn.qualname, where(fn, line), "get_subconverter requires ALL names of a record to be requested, not any", detail="all-vs-any")
+            if not recognised and any(y == tgt for y in subterms(cnd)):
+                ob.undecide(f"selection condition `{show(cnd)[:60]}` of get_subconverter not recognised")
         missing = CURIE_SIDE - fields
-        if missing:
+        if missing and not ob.undecided:
             ob.violate(fn.qualname, where(fn, line), f"get_subconverter does not test {sorted(missing)} against the requested prefixes: records requested by synonym are dropped", detail="cover:" + "+".join(sorted(missing)))
         extra = fields - CURIE_SIDE
         if extra:
             ob.violate(fn.qualname, where(fn, line), f"get_subconverter also selects by {sorted(extra)}", detail="cover-extra")
         # the kept element is the record itself (or a copy of it)
-        if not any(x == tgt for x in subterms(recs[2])):
+        if not any(x == tgt for x in subterms(elt)):
             ob.violate(fn.qualname, where(fn, line), "get_subconverter does not keep the selected record", detail="element")
     if not found:
         ob.undecide("get_subconverter does not return Converter(<comprehension>)")
